@@ -385,6 +385,42 @@ fn c09_raw(case: &Case) {
         let Some(r) = call(&mut s, "/_svs/next", beve::to_vec(&NextReq { stream_id: info.stream_id }).unwrap()) else { return };
         case.check(r.ec != 0, "next-past-end-ok", || format!("next past the end returned ec 0 with {} bytes", r.body.len()));
     }
+    // a later stream on the same router: the spent id stays spent, the new stream is whole
+    if !payload.fails() && simkernel::choose(2) == 0 {
+        let old_id = info.stream_id;
+        if let Some(open2) = call(&mut s, "/_svs/open", beve::to_vec(&OpenReq { resource: "res".into() }).unwrap())
+            && open2.ec == 0
+            && let Ok(info2) = beve::from_slice::<OpenResp>(&open2.body)
+        {
+            case.check(info2.stream_id != old_id, "stream-id-reused", || format!("a new stream got the id {old_id} of a stream that was released a moment ago"));
+            let mut got: Vec<u8> = Vec::new();
+            let mut n = 0;
+            loop {
+                // interleave pulls on the spent id: always an error, never a chunk of the new stream
+                if n == 1 || simkernel::choose(4) == 0 {
+                    let Some(r) = call(&mut s, "/_svs/next", beve::to_vec(&NextReq { stream_id: old_id }).unwrap()) else { return };
+                    if !case.check(r.ec != 0 || info2.stream_id == old_id, "next-on-spent-stream-ok", || format!("next on the spent stream {old_id} returned {} bytes after a newer stream was opened", r.body.len())) {
+                        break;
+                    }
+                }
+                let Some(r) = call(&mut s, "/_svs/next", beve::to_vec(&NextReq { stream_id: info2.stream_id }).unwrap()) else { return };
+                n += 1;
+                if !case.check(r.ec == 0, "second-stream-failed", || format!("the second stream failed at chunk {n}: {}", String::from_utf8_lossy(&r.body))) {
+                    break;
+                }
+                got.extend_from_slice(&r.body);
+                if r.query.first().copied() == Some(1) {
+                    let whole = if zstd_on { unzstd(&got) } else { Some(got.clone()) };
+                    case.check(whole.as_deref() == Some(&logical[..]), "stream-bytes-differ", || format!("second stream delivered {} bytes, producer emitted {}", got.len(), logical.len()));
+                    case.probe("second_stream_after_first");
+                    break;
+                }
+                if n > 200_000 {
+                    break;
+                }
+            }
+        }
+    }
     case.nontrivial();
     drop(s);
     net::shutdown_all();
@@ -557,6 +593,12 @@ fn c10_file(case: &Case) {
     if let Some(p) = &preexisting {
         std::fs::write(&dest, p).unwrap();
     }
+    // a stale temp sibling, as an earlier killed pull would have left it (longer than most streams)
+    let stale_temp = simkernel::choose(4) == 0;
+    if stale_temp {
+        std::fs::write(&temp, bytes(pick(&[1usize, 50, 400, 5_000]))).unwrap();
+        simkernel::count("probe.stale_temp_sibling_present");
+    }
     let trailer_len = pick(&[0usize, 1, 4, 9]);
     // what the producer streams, and what a successful pull must leave in the file
     let (payload, opts): (Payload, StreamOpts) = match api {
@@ -714,7 +756,8 @@ fn c10_file(case: &Case) {
                     format!("pull failed ({e}) but the destination changed: now {:?} bytes, was {:?}", now_dest.as_ref().map(|d| d.len()), old.as_ref().map(|d| d.len()))
                 });
             }
-            case.check(!temp.exists(), "temp-file-left", || format!("failed pull ({e}) left the .svspart sibling behind"));
+            // (a stale sibling of an earlier killed pull that this pull never got to re-create is not this pull's litter)
+            case.check(!temp.exists() || (stale_temp && !events.iter().any(|ev| ev.kind == "created")), "temp-file-left", || format!("failed pull ({e}) left the .svspart sibling behind"));
             let expected_failure = producer_fails || verifier_rejects || trailer_too_long || rename_fails || (scripted && cut != Cut::None);
             if !expected_failure {
                 case.fail("pull-failed-without-fault", format!("fault-free pull failed: {e}"));
